@@ -3,6 +3,7 @@
 //!   {"kind":"match","pattern":str,"uri":str}
 //!   {"kind":"chain","allowed":[str]|null,"allow_redirects":bool,"uri":str,"method":str,
 //!    "headers":[[name,valuehex]],"body":hex,"script":[[status,lochex|null]|"err"]}
+//!   {"kind":"ctx","allowed":[str]|null,"allow_redirects":bool,"location":str}   (Context::resolver() + loopback server)
 use std::{
     collections::VecDeque,
     future::Future,
@@ -242,10 +243,84 @@ fn run_match(case: &Value) -> Value {
            "list_same": m == m2, "serde_same": de == pat})
 }
 
+/// The SDK's own default resolver stack (Context::resolver(), real HTTP client) against a loopback server that
+/// answers the first request with a redirect.  {"kind":"ctx","allowed":[str]|null,"allow_redirects":bool,"location":str}
+/// ("{port}" in allowed/location is replaced by the server's port).  Reports the outcome and the request lines the
+/// server saw.
+pub fn run_ctx(case: &Value) -> Value {
+    use std::{
+        io::{Read as _, Write as _},
+        net::TcpListener,
+        sync::atomic::{AtomicBool, Ordering},
+        time::Duration,
+    };
+    let listener = match TcpListener::bind("127.0.0.1:0") {
+        Ok(l) => l,
+        Err(_) => return json!({"r": "no_loopback"}),
+    };
+    let port = listener.local_addr().expect("addr").port();
+    listener.set_nonblocking(true).expect("nonblocking");
+    let sub = |s: &str| s.replace("{port}", &port.to_string());
+    let location = sub(case["location"].as_str().unwrap_or("/"));
+    let served: Arc<Mutex<Vec<String>>> = Arc::new(Mutex::new(Vec::new()));
+    let stop = Arc::new(AtomicBool::new(false));
+    let (served2, stop2) = (served.clone(), stop.clone());
+    let server = std::thread::spawn(move || {
+        while !stop2.load(Ordering::SeqCst) {
+            match listener.accept() {
+                Ok((mut s, _)) => {
+                    s.set_nonblocking(false).ok();
+                    s.set_read_timeout(Some(Duration::from_secs(2))).ok();
+                    let mut buf = Vec::new();
+                    let mut b = [0u8; 512];
+                    while !buf.windows(4).any(|w| w == b"\r\n\r\n") {
+                        match s.read(&mut b) {
+                            Ok(0) | Err(_) => break,
+                            Ok(n) => buf.extend_from_slice(&b[..n]),
+                        }
+                    }
+                    let head = String::from_utf8_lossy(&buf).to_string();
+                    let first = served2.lock().unwrap().is_empty();
+                    served2.lock().unwrap().push(head.lines().next().unwrap_or("").to_string());
+                    let resp = if first {
+                        format!("HTTP/1.1 302 Found\r\nLocation: {}\r\nContent-Length: 0\r\nConnection: close\r\n\r\n", location)
+                    } else {
+                        "HTTP/1.1 200 OK\r\nContent-Length: 2\r\nConnection: close\r\n\r\nok".to_string()
+                    };
+                    s.write_all(resp.as_bytes()).ok();
+                }
+                Err(_) => std::thread::sleep(Duration::from_millis(5)),
+            }
+        }
+    });
+    let mut settings = c2pa::Settings::new();
+    if let Some(a) = case["allowed"].as_array() {
+        let hosts: Vec<String> = a.iter().map(|p| sub(p.as_str().unwrap_or(""))).collect();
+        settings = settings.with_value("core.allowed_network_hosts", hosts).expect("allowed hosts setting");
+    }
+    settings = settings
+        .with_value("core.allow_redirects", case["allow_redirects"].as_bool().unwrap_or(true))
+        .expect("allow_redirects setting");
+    let ctx = c2pa::Context::new().with_settings(settings).expect("context");
+    let req = Request::builder()
+        .method("GET")
+        .uri(format!("http://127.0.0.1:{port}/start"))
+        .header("authorization", "secret")
+        .body(Vec::new())
+        .expect("request");
+    let mut out = outcome(ctx.resolver().http_resolve(req));
+    stop.store(true, Ordering::SeqCst);
+    server.join().ok();
+    out["served"] = json!(served.lock().unwrap().clone());
+    out["port"] = json!(port);
+    out
+}
+
 pub fn run(case: &Value) -> Value {
     match case["kind"].as_str().unwrap_or("") {
         "match" => run_match(case),
         "chain" => run_chain(case),
+        "ctx" => run_ctx(case),
         _ => json!({"r": "bad_case"}),
     }
 }
